@@ -153,8 +153,7 @@ PROPERTIES = {
         'trusted_base': [AX[k] for k in ('A1', 'A2', 'A3', 'A5', 'A8', 'A10', 'X1', 'X2')] + [SERIAL_ONLY, HANDLER_MODEL,
             'event_cancel_pending_child_processing: contract assumed (recursive walk), not verified'],
         'not_decided': ['that the cancellation lands at `timeout` seconds (timer accuracy is asyncio.wait_for, A3)',
-                        'second witness of finding F5 (a timeout firing while the awaiting handler processes another event inline leaves THAT event cancelled half-way: all its results terminal, '
-                        'completion signal never set) is not under contract; the accounting part (task_done on every exit) is decided and was repaired'],
+                        'second witness of finding F5 (a cancellation interrupting process_event left the event with only terminal results and an unset completion signal): now under contract (process_event/raises:cancelled:completion_attempted_before_passing_the_cancellation_on) and repaired (fix F5b); what is decided is that completion is ATTEMPTED on every cancelled exit after the handler phase began - that the attempt succeeds needs the converse direction of event_are_all_children_complete, which is not stated'],
         'assumptions': [],
     },
     'C11': {
